@@ -29,6 +29,9 @@ type Listener struct {
 	once   sync.Once
 	addr   string
 	nextID int64
+	// Wrap, if set before Serve starts, is applied to every accepted
+	// connection (e.g. to make its Close observable and slow).
+	Wrap func(net.Conn) net.Conn
 }
 
 type addr string
@@ -50,6 +53,9 @@ func (l *Listener) Accept() (net.Conn, error) {
 	}
 	select {
 	case c := <-l.ch:
+		if l.Wrap != nil {
+			return l.Wrap(c), nil
+		}
 		return c, nil
 	case <-l.done:
 		return nil, net.ErrClosed
